@@ -9,6 +9,9 @@ decided on implementation traces by `ML.Mon` (both variants) and kept open as a 
 -/
 import SwimVerif.Model.MapLane
 import SwimVerif.Proofs.ValueLane
+import SwimVerif.Proofs.C03Lines
+import SwimVerif.Proofs.C03Indep
+import SwimVerif.Proofs.C03Fails
 
 set_option linter.unusedVariables false
 namespace SwimVerif.ML
@@ -124,34 +127,124 @@ theorem C03_pending_counts_down (syncs : List SyncQ) (a : Act) :
     (updateSyncs syncs a).map (·.pending) = syncs.map (fun q => q.pending - 1) := by
   cases a <;> simp [updateSyncs, List.map_map, Function.comp_def]
 
-/-! Open: the trace-level interval statement. `ML.Mon` is the decidable predicate (run over implementation traces
-by the check); the statement is that the model's own traces always satisfy it. -/
+/-! ### The trace-level interval statement
 
-def Op.render : Op → String
-  | .update k v => s!"upd {k} {v}"
-  | .remove k => s!"rem {k}"
-  | .clear => "clr"
-  | .sync r => s!"sync {r}"
-  | .write => "write"
-  | .dropFirst n => s!"drop {n}"
-  | .takeFirst n => s!"take {n}"
+`modelTraceOk` (defined in `Proofs/C03Bridge.lean`) runs the monitor `ML.Mon` — the decidable predicate the check runs
+over implementation traces — over the model's own trace: at `synced r`, for a remote that was linked all along and
+for one that held nothing, every key of the replica holds a value (or absence) the lane held between the request and
+that instant; a write that produces nothing finds no request outstanding and the observer's replica equal to the
+lane's map. The proof (`Proofs/C03Queue … C03Trace`) is by the inductive invariant `ML.Inv` linking lane content,
+event queue (with its wrapping epochs), each sync queue's remaining keys and `pending` counter, and the monitor's
+replicas and per-key histories. -/
 
-/-- the monitor accepts the model's trace of these operations -/
-def modelTraceOk : St → Mon → List Op → Bool
-  | _, _, [] => true
-  | s, m, op :: rest =>
-    let x := stepLine s op.render
-    let y := m.step op.render x.2
-    y.2.isNone && modelTraceOk x.1 y.1 rest
+/-- **Snapshot consistency, typed form**: for every sequence of lane operations with fresh sync ids the monitor
+accepts the model's trace (`traceOkT`: the monitor on operations and frames instead of rendered lines).
+The bound `ops.length < 2^64` is what keeps the wrapping epoch arithmetic of `EventQueue` exact. -/
+theorem C03_snapshot_consistent_typed (ops : List Op) (hf : syncIdsFresh [] ops = true) (hl : ops.length < M64) :
+    traceOkT {} {} ops = true :=
+  traceOkT_init ops hf hl
 
-/-- every sync request comes from a remote with no request outstanding (ids never reused) -/
-def syncIdsFresh : List Nat → List Op → Bool
-  | _, [] => true
-  | seen, .sync r :: rest => !seen.contains r && syncIdsFresh (r :: seen) rest
-  | seen, _ :: rest => syncIdsFresh seen rest
+/-- **Snapshot consistency** (`C03_snapshot_consistent` for every trace shorter than 2^64): for every sequence
+of lane operations with fresh sync ids, the monitor — run on the rendered lines, exactly as the check runs it on
+implementation traces — accepts the model's trace. (`Proofs/C03Lines.lean`: every line of the protocol parses back to
+what was rendered, so the line-level predicate equals the typed one.) -/
+theorem C03_snapshot_consistent_partial (ops : List Op) (hf : syncIdsFresh [] ops = true) (hl : ops.length < M64) :
+    modelTraceOk {} {} ops = true := by
+  rw [modelTraceOk_eq]
+  exact traceOkT_init ops hf hl
 
-def C03_snapshot_consistent_open : Prop :=
+/-- **The invariant behind it, on every reachable state** (lane and monitor run side by side). -/
+theorem C03_lane_monitor_invariant (ops : List Op) (hf : syncIdsFresh [] ops = true) (hl : ops.length < M64) :
+    ∃ seen U, Inv (jointRun {} {} ops).1 (jointRun {} {} ops).2 seen U :=
+  inv_jointRun ops {} {} [] [] inv_init hf (by simp only [List.length_nil]; omega)
+
+/-- **Convergence of the faithful queue model (C02 with wrapping epochs)**: whenever nothing is queued, an observer
+that applied every event holds exactly the lane's map, and no sync request is outstanding. -/
+theorem C03_quiescent_converged (ops : List Op) (hf : syncIdsFresh [] ops = true) (hl : ops.length < M64)
+    (he : (jointRun {} {} ops).1.wq.eq.events = []) (hs : (jointRun {} {} ops).1.wq.syncs = []) :
+    (jointRun {} {} ops).2.rep = (jointRun {} {} ops).1.content ∧ (jointRun {} {} ops).2.pend = [] := by
+  obtain ⟨seen, U, h⟩ := C03_lane_monitor_invariant ops hf hl
+  have := noData_ok (c := (jointRun {} {} ops).1.content) (w := (jointRun {} {} ops).1.wq) h he hs
+  have hc := h.cur_eq
+  unfold Mon.noDataT at this
+  split at this
+  · cases this
+  · rename_i hpe
+    split at this
+    · cases this
+    · rename_i hrep
+      refine ⟨?_, ?_⟩
+      · rw [← hc]; exact Classical.not_not.mp hrep
+      · cases hpd : (jointRun {} {} ops).2.pend with
+        | nil => rfl
+        | cons p ps => simp [hpd] at hpe
+
+/-- The full statement (no bound on the length of the trace). -/
+def C03_snapshot_consistent : Prop :=
   ∀ (ops : List Op), syncIdsFresh [] ops = true → modelTraceOk {} {} ops = true
+
+/-- The full statement is **false of the model** — an artefact of its unbounded lists, not a defect of the code:
+after updates of the 2^64 + 1 keys `0 … 2^64` with no write in between, the epoch of the newest entry
+(`(head + len) % 2^64` in `EQ.push`) has wrapped onto the head's; a second update of key 2^64 then overwrites the head
+entry (key 0) in place, key 0 is never published, and after the queue is written out the monitor reports the
+observer's replica as diverged (`longOps`, `Proofs/C03Fails.lean`). The real `Vec` cannot hold 2^64 entries, so the
+code cannot reach this; `C03_snapshot_consistent_partial` (bound `ops.length < 2^64`) is the statement that holds. -/
+theorem C03_snapshot_consistent_fails : ¬ C03_snapshot_consistent := by
+  intro h
+  have := h (longOps M64) (longOps_fresh M64)
+  rw [modelTraceOk_eq, longOps_rejected M64 rfl] at this
+  cases this
+
+example : syncIdsFresh [] [.update 1 5, .sync 7, .update 2 6, .remove 1, .write, .write, .write, .write, .write] = true ∧
+    traceOkT {} {} [.update 1 5, .sync 7, .update 2 6, .remove 1, .write, .write, .write, .write, .write] = true := by
+  decide
+
+/-! ### Concurrent syncs -/
+
+/-- The literal reading of "concurrent syncs do not disturb each other": the frames addressed to `r'` are the same
+with and without the request of another remote `r`. -/
+def C03_concurrent_syncs_independent : Prop :=
+  ∀ (ops : List Op) (r r' : Nat), r ≠ r' → syncIdsFresh [] ops = true →
+    (framesOf {} ops).filter (Frame.isTo r') =
+      (framesOf {} (ops.filter (fun o => !o.isSyncOf r))).filter (Frame.isTo r')
+
+/-- It is false, of the model and of the real `MapLane` alike (`corpus/C03/ml-indep-witness.ops`: the real lane
+answers `sync:7:1:9` with the request of remote 8 present and `sync:7:1:5` without): every write serves one queue and
+the value is read when the entry is written, so another remote's request delays `r'`'s entries past later updates.
+Both answers are consistent snapshots (`C03_snapshot_consistent_partial`). -/
+theorem C03_concurrent_syncs_independent_fails : ¬ C03_concurrent_syncs_independent := by
+  intro h
+  have := h [.update 1 5, .update 2 6, .write, .write, .sync 8, .sync 7, .write, .update 1 9, .write, .write, .write,
+    .write, .write, .write] 8 7 (by decide) (by decide)
+  revert this
+  decide
+
+/-- **Concurrent syncs are independent up to the schedule**: what `WriteQueues::pop` does either serves `r` and then
+changes nothing but `r`'s own queue (event queue and every other remote's queue untouched), or it is, entry for
+entry, a step (`NPop`: emit the head event / serve a snapshot key / finish a caught-up request, for some queue) of the
+write queues from which `r`'s request has been erased. So the request of `r` is visible to the others only through
+which write serves whom. -/
+theorem C03_concurrent_syncs_independent_partial (w : WQ) (hi : IdxOk w) (t : ToWrite) (ht : w.pop.1 = some t)
+    (r : Nat) :
+    (t.isFor r = true → w.pop.2.eq = w.eq ∧ eraseRemote r w.pop.2.syncs = eraseRemote r w.syncs) ∧
+    (t.isFor r = false → NPop w.eq (eraseRemote r w.syncs) t w.pop.2.eq (eraseRemote r w.pop.2.syncs)) := by
+  have hs := pop_spec w hi
+  rw [ht] at hs
+  exact nPop_erase (popR_nPop hs) r
+
+/-- …and a request itself only appends a queue: erased, the request of `r` is no step at all. -/
+theorem C03_sync_request_appends (s : St) (r r' : Nat) :
+    eraseRemote r (step s (.sync r')).1.wq.syncs =
+      (if r' = r then eraseRemote r s.wq.syncs
+       else eraseRemote r s.wq.syncs ++ [⟨r', s.content.map (·.1), s.wq.eq.events.length⟩]) ∧
+    (step s (.sync r')).1.wq.eq = s.wq.eq ∧ (step s (.sync r')).1.content = s.content :=
+  ⟨eraseRemote_sync r r' _ _ _, rfl, rfl⟩
+
+example : (WQ.pop { syncs := [⟨8, [1], 0⟩, ⟨7, [1, 2], 0⟩], nextIsEvent := false }).1 = some (.syncEvent 8 1) ∧
+    IdxOk { syncs := [⟨8, [1], 0⟩, ⟨7, [1, 2], 0⟩], nextIsEvent := false } := by
+  constructor
+  · decide
+  · left; decide
 
 example : (WQ.pop { syncs := [⟨7, [], 0⟩], nextIsEvent := false }).1 = some (.synced 7) := by decide
 example : (WQ.pop { eq := { events := [.rem 1], emap := [(1, 0)] }, syncs := [⟨7, [], 1⟩], nextIsEvent := false }).1
